@@ -198,8 +198,8 @@ impl Property for C32 {
         "division by zero is outside the domain (it panics for every integer type)",
         "wire-format clauses only quantify over non-negative durations that fit the format (negative durations hit a documented assert!)",
     ];
-    const QUICK_CASES: u32 = 400_000;
-    const THOROUGH_CASES: u32 = 20_000_000;
+    const QUICK_CASES: u32 = 4_000_000;
+    const THOROUGH_CASES: u32 = 60_000_000;
 
     fn strategy(_tier: Tier) -> BoxedStrategy<Case> {
         let p128 = || u128_interesting().prop_map(split);
